@@ -1303,6 +1303,54 @@ Section HeaderProofs.
     exists a'. split; [exact Hd|]. now apply aeqb_trans with y.
   Qed.
 
+  (* every map of the header is to_mapping of one of the axes, and no dimension is listed twice *)
+  Lemma In_append_dim (mat : list (list Z * M)) k d e : In e (append_dim mat k d) -> exists e0, In e0 mat /\ snd e0 = snd e.
+  Proof.
+    revert k. induction mat as [|[ds m] mat IH]; intros k; cbn; [intros []|].
+    destruct k as [|k]; cbn.
+    - intros [<-|H]; [exists (ds, m); auto|exists e; auto].
+    - intros [<-|H]; [exists (ds, m); auto|]. apply IH in H as (e0 & H1 & H2). exists e0. auto.
+  Qed.
+
+  Lemma to_header_loop_payloads : forall todo done dim mims mat mat',
+    to_header_loop aeqb enc todo done dim mims mat = Ok mat' ->
+    (forall e, In e mat -> exists y, In y done /\ enc y = Ok (snd e)) ->
+    forall e, In e mat' -> exists y, In y (done ++ todo) /\ enc y = Ok (snd e).
+  Proof.
+    induction todo as [|ax r IH]; intros done dim mims mat mat'; cbn [to_header_loop].
+    - intros [= <-] H e He. rewrite app_nil_r. auto.
+    - destruct (index_of aeqb ax done 0) as [j|].
+      + intros Hl H e He. replace (done ++ ax :: r) with ((done ++ [ax]) ++ r) by now rewrite <- app_assoc.
+        apply (IH _ _ _ _ _ Hl); [|exact He]. intros e1 He1. apply In_append_dim in He1 as (e0 & H1 & H2).
+        destruct (H e0 H1) as (y & Hy1 & Hy2). exists y. split; [apply in_or_app; now left|congruence].
+      + destruct (enc ax) as [m|] eqn:Ee; [|discriminate].
+        intros Hl H e He. replace (done ++ ax :: r) with ((done ++ [ax]) ++ r) by now rewrite <- app_assoc.
+        apply (IH _ _ _ _ _ Hl); [|exact He]. intros e1 He1. apply in_app_or in He1 as [He1|[<-|[]]].
+        * destruct (H e1 He1) as (y & Hy1 & Hy2). exists y. split; [apply in_or_app; now left|exact Hy2].
+        * exists ax. split; [apply in_or_app; right; now left|exact Ee].
+  Qed.
+
+  Lemma header_structure axes mat : Forall wfA axes -> to_header aeqb enc axes = Ok mat ->
+    (forall e, In e mat -> exists y, In y axes /\ enc y = Ok (snd e))
+    /\ (forall k k' e e' z, nth_error mat k = Some e -> nth_error mat k' = Some e' -> In z (fst e) -> In z (fst e') -> k = k').
+  Proof.
+    intros Hw Ht. split.
+    - intros e He. apply (to_header_loop_payloads axes [] 0 [] [] mat Ht); [intros ? []|exact He].
+    - destruct (to_header_loop_inv axes [] [] [] Hw) as (mat0 & mims & H1 & _ & _ & H4).
+      { split; [reflexivity|]. split; [intros i x Hi; destruct i; discriminate|]. intros k ds m z Hk; destruct k; discriminate. }
+      unfold to_header in Ht. cbn [length Z.of_nat] in H1. rewrite H1 in Ht. injection Ht as <-.
+      intros k k' [ds m] [ds' m'] z Hk Hk' Hz Hz'. cbn [fst] in *.
+      destruct (H4 k ds m z Hk Hz) as (i & -> & _ & Hi). destruct (H4 k' ds' m' _ Hk' Hz') as (i' & Hii & _ & Hi').
+      assert (i' = i) by lia. subst. congruence.
+  Qed.
+
+  Lemma get_axis_map {M2} (f : M -> M2) (dec2 : M2 -> res A) (mat : list (list Z * M)) z :
+    get_axis dec2 (map (fun e => (fst e, f (snd e))) mat) z = get_axis (fun m => dec2 (f m)) mat z.
+  Proof.
+    unfold get_axis. induction mat as [|[ds m] mat IH]; cbn; [reflexivity|].
+    destruct (existsb (Z.eqb z) ds); [reflexivity|exact IH].
+  Qed.
+
   (* ---------------- the file: XML in a NIfTI-2 extension, data reshaped to (1,1,1,1)+shape *)
   Context {X D F : Type}.
   Variable to_xml : list (list Z * M) -> X.
